@@ -46,7 +46,8 @@ static std::vector<CheckDef> g_checks = {
           "of in-flight jobs, #idle, #complete clients, last op kind) at which at least one job was in flight",
           { "reference hashes trusted after start-up vector self-check", "sampling, not proof" } },
         { "C06", "exploration", { { "hashmgr", 5 }, { "l2mgr", 1 }, { "hashgiant", -28 } }, 30000, 3000000, 50, 900, false, false,
-          "cases: seeded plans over submit/flush/drain/restart/zero-length-LAST histories on every (algorithm, family); "
+          "cases: seeded plans over submit/flush/drain/restart/zero-length-LAST histories on every (algorithm, family), 1 in 12 with a giant "
+          "(2^30..2^32-1 byte) segment kept in flight, plus 28 runs (one per pair) that flush a single 2^30-byte ENTIRE segment to the end; "
           "distinct_nontrivial: distinct manager states (as C01) reached with a conservation invariant evaluated",
           { "lane capacity per family read from the family's manager-init code", "sampling, not proof" } },
         { "C11", "exploration", { { "hashmgr", 1 } }, 24000, 3000000, 50, 900, false, false,
@@ -70,7 +71,7 @@ static std::vector<CheckDef> g_checks = {
           { "golden copy of the 256-entry table frozen in /verif defines the hash", "sampling, not proof" } },
         { "C07", "exploration", { { "stream", 1 } }, 30000, 3000000, 50, 900, false, false,
           "cases: AES-GCM streaming clients (key size x family x enc/dec x in/out of place x nt) under arbitrary update splits, contexts sharing "
-          "key data, restarts; oracle = one-shot call of the same family; distinct_nontrivial: distinct (family, key size, direction, "
+          "key data, restarts, 8 runs with a message longer than 2^32 bytes; oracle = one-shot call of the same family; distinct_nontrivial: distinct (family, key size, direction, "
           "carried partial length, fragment residue, fragment class, nt, in-place) cells",
           { "the one-shot call of the same family is the oracle, not an object under test (that would be C02)" } },
         { "C08", "exploration", { { "hashmgr", 3 }, { "stream", 4 }, { "oneshot", 4 }, { "l2mgr", 2 } }, 40000, 4000000, 50, 900, false, false,
